@@ -93,6 +93,40 @@ def feed (s : RdState) (chunk : Bytes) : RdState :=
 def reopen (s : RdState) : RdState :=
   { buf := if Gen.Parse.openResetsCarry then [] else s.buf, out := s.out }
 
+/-- readers of one `IO` object over a close/open cycle: `IO.close` stops the loop of the current reader and - if it
+    joins it (read from the source) - has seen it end; `IO.open` then starts a new one.  A reader that was not joined
+    is still in its poll and is revived when `open` sets the run flag again. -/
+def readersAfterReconnect (alive : Nat) : Nat := (if Gen.Parse.closeJoinsReader then 0 else alive) + 1
+
+/-- `k` close/open cycles -/
+def readersAfter : Nat → Nat → Nat
+  | 0, alive => alive
+  | k + 1, alive => readersAfter k (readersAfterReconnect alive)
+
+/-- two readers sharing one carry-over buffer, as `_process_incoming_data` is written (`data_in += recv(); data_in =
+    on_read(data_in)` is not atomic): each takes the buffer as it finds it (`snap`), parses, dispatches and writes the
+    rest back (`commit`).  The phases of different readers can interleave. -/
+inductive RAct
+  | arrive (chunk : Bytes)   -- `data_in += recv()` by whichever reader
+  | snap (t : Nat)           -- reader t evaluates the argument of `on_read(self.data_in)`
+  | commit (t : Nat)         -- reader t dispatches what it parsed and assigns the rest to `data_in`
+deriving DecidableEq, Repr
+
+structure Shared where
+  st : RdState := {}
+  loc : List (Nat × Bytes) := []     -- what each reader took
+deriving Repr
+
+def Shared.step (s : Shared) : RAct → Shared
+  | .arrive chunk => { s with st := { s.st with buf := s.st.buf ++ chunk } }
+  | .snap t => { s with loc := (t, s.st.buf) :: s.loc.filter (·.1 ≠ t) }
+  | .commit t =>
+    match s.loc.lookup t with
+    | none => s
+    | some b =>
+      let r := readBuffer b
+      { st := { buf := r.2, out := s.st.out ++ r.1 }, loc := s.loc.filter (·.1 ≠ t) }
+
 /-- routing of `_read_buffer`: channel 0, a registered channel, or silently dropped -/
 inductive Route | chan0 | registered (c : Nat) | dropped
 deriving DecidableEq, Repr
